@@ -499,6 +499,8 @@ fn sync_oracle(e: &Exec, ids_in: &[usize], ids_out: &[usize]) -> Option<(String,
 pub struct EnvCfg {
     pub prop: &'static str,
     pub horizon: usize,
+    /// Horizon of the enumeration that follows a warm-up prefix.
+    pub warm_horizon: usize,
 }
 
 fn ids(inst: &Instance) -> (Vec<usize>, Vec<usize>) {
@@ -600,7 +602,9 @@ pub fn explore(rep: &mut Report, sub: &Subject, cfg: &EnvCfg) {
             seqs
         } else {
             let mut all = seqs.clone();
-            for s in &seqs {
+            let wh = (cfg.warm_horizon as i32 + sub.horizon_delta).max(2) as usize;
+            let wseqs = if sub.infinite_source || wh >= h { seqs.clone() } else { sequences(&m, wh) };
+            for s in &wseqs {
                 let mut w = sub.warmup.clone();
                 w.extend(s.iter().copied());
                 all.push(w);
